@@ -1,6 +1,8 @@
 //! One module per property.
 use crate::PropSpec;
 
+pub mod c01;
+pub mod c03;
 pub mod c05;
 pub mod c07;
 pub mod c08;
@@ -14,5 +16,5 @@ pub mod progx;
 pub mod vmgraph;
 
 pub fn all() -> Vec<PropSpec> {
-    vec![c05::spec(), c07::spec(), c08::spec(), c09::spec(), c10::spec(), c11::spec(), c12::spec(), c14::spec(), c15::spec()]
+    vec![c01::spec(), c03::spec(), c05::spec(), c07::spec(), c08::spec(), c09::spec(), c10::spec(), c11::spec(), c12::spec(), c14::spec(), c15::spec()]
 }
